@@ -188,6 +188,10 @@ Section Glue.
         end
     end.
 
+  (* the reference a `ref` key-value holds: the text of the value's span -- which runs up to the
+     delimiter -- without a trailing comment, trimmed, as u32 *)
+  Definition ref_value (vt : text) : option N := parse_u32 (trim (p_is_ws P) (cut_comment vt)).
+
   Inductive step := Skip | Emit (e : entry) | StepPanic.
 
   Definition one_macro (cfg : config) (code : text) (found : ptree) : step :=
@@ -224,7 +228,7 @@ Section Glue.
                               match line_col code (node_start vs),
                                     str_slice code (node_start vs) (node_end vs) with
                               | Some (l, c), Some vt =>
-                                  Emit (mkEntry (node_start vs) l c (parse_u32 (trim (p_is_ws P) vt))
+                                  Emit (mkEntry (node_start vs) l c (ref_value vt)
                                                 (short_name name)
                                                 KStructuredPreExisting None None)
                               | _, _ => StepPanic
